@@ -27,9 +27,125 @@ def collect_hooks(work, hook_files, coverage, rejected, tier):
         EXTRA_HOOK_ROWS.extend(core.read_ndjson(path))
 
 
+def generic_ops(d):
+    """class-independent API calls on a real diagram; every diagram they construct is seen by the hook"""
+    out = []
+
+    def attempt(fn):
+        try:
+            r = fn()
+            if hasattr(r, "offsets"):
+                out.append(r)
+        except Exception:
+            pass
+    attempt(lambda: d[::-1])
+    attempt(lambda: d.dagger())
+    attempt(lambda: d.dagger().dagger())
+    attempt(lambda: d @ d)
+    attempt(lambda: d >> d[::-1])
+    attempt(lambda: d[::-1] >> d)
+    n = len(d)
+    for i in range(n + 1):
+        for j in range(i, n + 1):
+            attempt(lambda: d[i:j])
+    for i in range(n):
+        attempt(lambda: d[i])
+    for i in range(n - 1):
+        attempt(lambda: d.interchange(i, i + 1))
+        attempt(lambda: d.interchange(i + 1, i, left=True))
+    attempt(lambda: d.normal_form())
+    attempt(lambda: d.foliation().flatten())
+    return out
+
+
+def class_legs(work, tier, seed):
+    """C01 'in every diagram class': diagrams of the circuit, zx, tensor, biclosed and cartesian classes are built from
+    the states of the other checks' TLC models and put through the generic API; the hook records what is constructed."""
+    from harness import qadapt, tlaval
+    from harness.project import DiagramSink, proj_diagram
+    from harness.checks import c18, c19
+    rnd = core.rng(seed, "C01-classes")
+    n = 120 if tier == "quick" else 3000
+    sink = DiagramSink().install()
+    counts = {}
+    try:
+        cq = core.run_model("MC_CQ", work, spec="MSpec", constants={"MaxQ": 0, "MaxLayers": 0, "Phases": "<- PhasesQ",
+                                                                     "MaxWeight": 4, "MaxMLayers": 2}, dump=True, tag="_cls")
+        mcs = [st["mc"] for st in tlaval.read_dump(cq["dump"]) if st["mc"]["layers"]]
+        os.remove(cq["dump"])
+        done = 0
+        for mc in rnd.sample(mcs, min(n, len(mcs))):
+            try:
+                d = qadapt.mixed_circuit(mc)
+            except Exception:
+                continue
+            done += len(generic_ops(d))
+        counts["circuit"] = done
+        zx = core.run_model("MC_ZX", work, spec="ZSpec", constants={"MaxQ": 0, "MaxLayers": 0, "Phases": "<- PhasesQ", "Halving": "TRUE",
+                                                                     "ZMaxW": 2, "ZMaxBoxes": 2}, dump=True, tag="_cls")
+        zds = [st["zd"] for st in tlaval.read_dump(zx["dump"]) if st["zd"]["layers"]]
+        os.remove(zx["dump"])
+        done = 0
+        for zd in rnd.sample(zds, min(n, len(zds))):
+            try:
+                d = qadapt.zx_diagram(zd)
+            except Exception:
+                continue
+            done += len(generic_ops(d))
+        counts["zx"] = done
+        ca = core.run_model("MC_Cartesian", work, constants={"MaxBoxes": 3, "MaxWidth": 3, "Inputs": "<- InputsV"}, dump=True, tag="_cls")
+        cds = [st["d"] for st in tlaval.read_dump(ca["dump"]) if st["d"]["boxes"]]
+        os.remove(ca["dump"])
+        B = c19.boxes()
+        done = 0
+        for k, dabs in enumerate(rnd.sample(cds, min(n, len(cds)))):
+            try:
+                d = c19.build(dabs, B, k % 2)
+            except Exception:
+                continue
+            done += len(generic_ops(d))
+        counts["cartesian"] = done
+        bc = core.run_model("MC_Biclosed", work, constants={"Depth": 1}, dump=True, tag="_cls")
+        insts = [st["inst"] for st in tlaval.read_dump(bc["dump"])]
+        os.remove(bc["dump"])
+        from discopy import biclosed
+        done = 0
+        for inst in rnd.sample(insts, min(n, len(insts))):
+            try:
+                box = c18.make_box(inst)
+                if box is None:
+                    continue
+                d = biclosed.Id(box.dom) >> box >> biclosed.Id(box.cod)
+            except Exception:
+                continue
+            done += len(generic_ops(d)) + len(generic_ops(d @ biclosed.Id(box.dom[:1])))
+        counts["biclosed"] = done
+        from discopy import tensor
+        from discopy.tensor import Dim
+        import numpy as np
+        done = 0
+        for k in range(min(n, 200)):
+            dims = [rnd.choice([1, 2, 3]) for _ in range(rnd.randrange(0, 3))]
+            a, b = Dim(*dims), Dim(*[rnd.choice([2, 3]) for _ in range(rnd.randrange(0, 3))])
+            size = int(np.prod(list(a) + list(b) + [1]))
+            f = tensor.Box("f", a, b, list(range(size)))
+            g = tensor.Box("g", b, a, list(range(size)))
+            d = f @ tensor.Id(Dim(2)) >> g @ tensor.Id(Dim(2)) if k % 2 else \
+                tensor.Id(a) @ tensor.Spider(1, 2, 2) >> f @ tensor.Id(Dim(2, 2))
+            done += len(generic_ops(d))
+        counts["tensor"] = done
+    finally:
+        sink.uninstall()
+    EXTRA_HOOK_ROWS.extend(sink.seen.values())
+    return counts, sink.total
+
+
 def hook_leg(work, hook_files, coverage, rejected, tier):
     """Validate every distinct diagram seen by hook H2: during the replays, and during the
     repository's tests (and doctests in the thorough tier)."""
+    counts, total = class_legs(work, tier, coverage.get("_seed_for_classes", 0))
+    coverage.pop("_seed_for_classes", None)
+    coverage["class_legs"] = {"api_results_by_class": counts, "diagrams_constructed": total}
     suite_out = os.path.join(work, "suite-hook.ndjson")
     cmd = [sys.executable, "-m", "harness.suite_hook", suite_out] + (["doctests"] if tier == "thorough" else [])
     p = subprocess.run(cmd, stdout=subprocess.PIPE, stderr=subprocess.PIPE, text=True, timeout=1800)
